@@ -9,12 +9,15 @@
 (***************************************************************************)
 EXTENDS Integers, Sequences, FiniteSets, TLC, Json
 
-Sites == {"tls-secret", "auth-tls-secret", "secure-crt-secret", "secure-verify-ca-secret", "auth-secret", "auth-url-svc"}
-Forms == {"ns/name", "secret://ns/name"}
+Sites == {"tls-secret", "auth-tls-secret", "secure-crt-secret", "secure-verify-ca-secret", "auth-secret", "auth-url-svc", "gateway-certref"}
+(* namespace: the namespace field of a Gateway certificateRef *)
+Forms == {"ns/name", "secret://ns/name", "namespace"}
+(* prev: the settings before the ones under test -- "allow": every key allowed the reference and that state was reconciled *)
+Prevs == {"none", "allow"}
 Exposures == {"unused", "used-by-foreign-ingress"}
 
 KeyOf(site) ==
-    CASE site \in {"tls-secret", "secure-crt-secret"} -> "crt"
+    CASE site \in {"tls-secret", "secure-crt-secret", "gateway-certref"} -> "crt"
       [] site \in {"auth-tls-secret", "secure-verify-ca-secret"} -> "ca"
       [] site = "auth-secret" -> "passwd"
       [] site = "auth-url-svc" -> "services"
@@ -26,9 +29,15 @@ Permitted(c) ==
     ELSE c.static \/ c[k] = "allow"
 
 Vals == {"allow", "deny"}
-Cases == {c \in [site : Sites, form : Forms, crt : Vals \cup {"bogus"}, ca : Vals, passwd : Vals, services : Vals, static : BOOLEAN, exposure : Exposures] :
+Cases == {c \in [site : Sites, form : Forms, crt : Vals \cup {"bogus"}, ca : Vals, passwd : Vals, services : Vals, static : BOOLEAN, exposure : Exposures, prev : Prevs] :
             \* auth-url svc:// and the secure-* keys only take the ns/name form (secret:// is refused as a malformed name)
-            (c.site \in {"auth-url-svc", "secure-crt-secret", "secure-verify-ca-secret"} => c.form = "ns/name")}
+            /\ (c.site \in {"auth-url-svc", "secure-crt-secret", "secure-verify-ca-secret"} => c.form = "ns/name")
+            /\ (c.form = "namespace" => c.site = "gateway-certref")
+            /\ (c.site = "gateway-certref" => c.form \in {"ns/name", "namespace"})}
+
+(* a form the controller documents as not implemented is never honoured, whatever the settings (the namespace of a Gateway
+   certificateRef): only the "no influence" side is judged for it *)
+Honoured(c) == ~(c.site = "gateway-certref" /\ c.form = "namespace")
 
 VARIABLE cs
 Init == cs \in Cases
